@@ -203,7 +203,17 @@ def judge_cli(ctx, case):
         if tn:
             args.append("--testnet")
         target = None
-        if case["to_file"]:
+        fault = case.get("file_fault")
+        if fault == "trailing-slash":
+            # a --file value that passes validation (not a directory, nothing there yet, parent writable) and still cannot be
+            # opened for writing: the export fails AFTER the wallet was generated
+            args += ["-f", os.path.join(d, "out.json") + "/"]
+        elif fault == "dangling-symlink":
+            os.symlink(os.path.join(d, "missing-dir", "x.json"), os.path.join(d, "link.json"))
+            args += ["-f", os.path.join(d, "link.json")]
+        elif fault == "parent-removed":
+            args += ["-f", os.path.join(d, "gone", "..", "out.json", "x")]
+        elif case["to_file"]:
             target = os.path.join(d, "out.json")
             args += ["-f", target]
         mn_echo, pw_echo = mn, pw
@@ -218,6 +228,25 @@ def judge_cli(ctx, case):
             args += ["from-master-xprv", m.xprv(rb32.version_for("prv", tn, case.get("purpose", 44)))]
             mn_echo = pw_echo = None
         p = cli_run(args, d)
+        if fault:
+            # however the run ends: nothing secret on stdout / stderr / in any file left behind
+            unf = rpaper.generate(m, tn, acct, s, e, mn_echo, pw_echo)
+            S, scal = secret_set(m, tn, mn, pw, seed, acct, s, e, unf)
+            streams = [("stdout", p.stdout), ("stderr", p.stderr)]
+            for root, _dirs, files in os.walk(d):
+                for fn in files:
+                    try:
+                        streams.append(("file:" + fn, open(os.path.join(root, fn), errors="replace").read()))
+                    except OSError:
+                        pass
+            bad = []
+            for name, text in streams:
+                for sec in S:
+                    if len(sec) >= 8 and sec in text:
+                        bad.append((name + "_contains_secret", sec[:40]))
+                        break
+            return ctx.judge("cli_paranoia", not bad, case, "no secret anywhere, whatever the exit status", {"rc": p.returncode, "bad": bad[:3]},
+                             cls="cli|%s|export-fault-%s|rc%s" % (src, fault, "0" if p.returncode == 0 else "!=0"), mech="C15.cli.secret_after_export_failure")
         if p.returncode != 0:
             return ctx.judge("cli_paranoia", False, case, "exit 0", {"rc": p.returncode, "stderr": p.stderr[-300:]}, cls="cli|failed", mech="C15.cli.failed")
         text = open(target).read() if target else p.stdout
@@ -273,6 +302,11 @@ def run(ctx):
                         "to_file": bool((j >> 1) & 1),
                         "source": ["from-mnemonic", "from-bip39-seed", "from-master-xprv", "from-entropy-hex"][(j >> 2) % 4],
                         "purpose": rnd.choice([44, 49, 84])})
+    for j0 in range(ctx.scale(8, 320)):
+        j = j0 * ctx.nshards + ctx.shard
+        judge_cli(ctx, {"entropy": gen.rbytes(rnd, 16), "passphrase": "0OIl-marker-passphrase", "testnet": bool(j & 1), "account": rnd.choice([0, 3]),
+                        "start": 5, "end": 8, "to_file": True, "file_fault": ("trailing-slash", "dangling-symlink", "parent-removed")[j % 3],
+                        "source": ["from-mnemonic", "from-entropy-hex", "from-master-xprv"][(j // 3) % 3], "purpose": 44})
 
 
 def replay(ctx, monitor, case):
